@@ -36,7 +36,7 @@ package otr3
 //@   ensures [C14.frag.size] (fragBig(data, fraglen) && fragRoom(c, fraglen) > 0 && len(data) / fragRoom(c, fraglen) + 1 < 100000) ==> (forall i in 0..len(result) :: len(result[i]) <= int(fraglen) && len(result[i]) >= fragP(c) + 1)
 //@   ensures [C14.frag.sep] (fragBig(data, fraglen) && fragRoom(c, fraglen) > 0) ==> (forall i in 0..len(result) :: len(result[i]) >= 1 && result[i][len(result[i]) - 1] == 44)
 //@ loop (*Conversation).fragment #0
-//@   invariant len(ret) == numFragments && nonglobal(ret) && numFragments == len(data) / fragRoom(c, fraglen) + 1 && realFraglen == fragRoom(c, fraglen) && realFraglen > 0 && l == len(data) && fragBig(data, fraglen)
+//@   invariant [C14.frag.count.inv] len(ret) == numFragments && nonglobal(ret) && numFragments == len(data) / fragRoom(c, fraglen) + 1 && realFraglen == fragRoom(c, fraglen) && realFraglen > 0 && l == len(data) && fragBig(data, fraglen)
 //@   invariant numFragments < 100000 ==> (forall k in 0..i :: len(ret[k]) <= int(fraglen) && len(ret[k]) >= fragP(c) + 1)
 //@   invariant forall k in 0..i :: len(ret[k]) >= 1 && ret[k][len(ret[k]) - 1] == 44
 
@@ -81,6 +81,7 @@ package otr3
 
 //@ func (*keyManagementContext).checkMessageCounter
 //@   inline
+//@   ghostset ctrok(nil) = (result == nil)
 //@   requires k != nil && chNonNil(k.counterHistory) && chUnique(k.counterHistory)
 //@   modifies anything
 //@   ensures [C05.counter.exact] forall i in 0..len(old(k.counterHistory.counters)) :: old(pairAt(k.counterHistory, i, message.recipientKeyID, message.senderKeyID)) ==> ((result == nil) <==> (ctrOf(message) > old(k.counterHistory.counters[i].theirCounter)))
@@ -236,6 +237,7 @@ package otr3
 // fragmentation.go, receive side (C14)
 // ---------------------------------------------------------------------------
 //@ ghostfn atoival(Str) BV64
+//@ ghostfn countsep(BS, BV8) BV64
 
 //@ func bytesToUint16
 //@   pure
@@ -244,6 +246,7 @@ package otr3
 //@ func parseFragment
 //@   pure
 //@   ensures ok ==> within(resultData, data)
+//@   ensures [C14.parse.fields] ok ==> countsep(bytes(data), 44) == 3
 //@   ensures !ok ==> true
 
 //@ func (*Conversation).receiveFragment
@@ -416,6 +419,7 @@ package otr3
 // messages.go: data message wire format and MAC (C02, C10, C13, C17)
 // ---------------------------------------------------------------------------
 //@ ghoststate macok Bool
+//@ ghoststate ctrok Bool
 //@ ghoststate mackey BS
 
 //@ define ylen(msg) = old(int(be32(msg, 9)))
@@ -502,6 +506,7 @@ package otr3
 //@   decreases len(msg) - nulPos
 //@ loop (*plainDataMsg).deserialize #1
 //@   invariant c != nil && nonglobal(tlvsBytes)
+//@   exit [C17.plain.alltlvs,C02.plain.alltlvs] len(tlvsBytes) == 0
 //@   decreases len(tlvsBytes)
 
 //@ func (*tlv).deserialize
@@ -1028,21 +1033,23 @@ package otr3
 // reception of data messages (C02, C05, C06)
 // ---------------------------------------------------------------------------
 //@ func (*Conversation).processTLVs
-//@   requires c != nil && macok(nil)
+//@   requires [C02.tlv.after.auth,C05.tlv.after.counter] c != nil && macok(nil) && ctrok(nil)
 //@   modifies anything
 //@   modifies seclog(c), msglog(c), smplog(c), kmcWiped(addr(c.keys)), keysWiped(addr(c.keys)), akeWiped(c.ake), akeKeysWiped(c.ake), kmcWiped(addr(c.ake.keys)), keysWiped(addr(c.ake.keys))
 //@   ensures nonglobal(result0)
 //@   ensures result1 != nil ==> result0 === nil
 
 //@ func (*Conversation).rotateKeys
-//@   requires c != nil && macok(nil)
+//@   requires c != nil && macok(nil) && ctrok(nil)
 //@   inline
 //@   modifies anything
 
 //@ func (*Conversation).processDataMessageWithRawErrors
 //@   requires convOK(c)
 //@   modifies anything
-//@   modifies macok(nil), mackey(nil), seclog(c), msglog(c), smplog(c), kmcWiped(addr(c.keys)), keysWiped(addr(c.keys)), akeWiped(c.ake), akeKeysWiped(c.ake), kmcWiped(addr(c.ake.keys)), keysWiped(addr(c.ake.keys))
+//@   modifies macok(nil), mackey(nil), ctrok(nil), seclog(c), msglog(c), smplog(c), kmcWiped(addr(c.keys)), keysWiped(addr(c.keys)), akeWiped(c.ake), akeKeysWiped(c.ake), kmcWiped(addr(c.ake.keys)), keysWiped(addr(c.ake.keys))
+//@   ensures [C05.accept.fresh] plain !== nil ==> ctrok(nil)
+//@   ensures [C05.accept.fresh.tosend] toSend !== nil ==> ctrok(nil)
 //@   ensures [C02.accept.plain] plain !== nil ==> (macok(nil) && old(c.msgState) == encrypted)
 //@   ensures [C02.accept.tosend] toSend !== nil ==> (macok(nil) && old(c.msgState) == encrypted)
 //@   ensures [C02.notprivate,C18.recv.notencrypted] old(c.msgState) != encrypted ==> (err == errMessageNotInPrivate && plain === nil && toSend === nil && c.msgState == old(c.msgState))
@@ -1053,7 +1060,8 @@ package otr3
 //@ func (*Conversation).processDataMessage
 //@   requires convOK(c)
 //@   modifies anything
-//@   modifies macok(nil), mackey(nil), seclog(c), msglog(c), smplog(c), kmcWiped(addr(c.keys)), keysWiped(addr(c.keys)), akeWiped(c.ake), akeKeysWiped(c.ake), kmcWiped(addr(c.ake.keys)), keysWiped(addr(c.ake.keys))
+//@   modifies macok(nil), mackey(nil), ctrok(nil), seclog(c), msglog(c), smplog(c), kmcWiped(addr(c.keys)), keysWiped(addr(c.keys)), akeWiped(c.ake), akeKeysWiped(c.ake), kmcWiped(addr(c.ake.keys)), keysWiped(addr(c.ake.keys))
+//@   ensures [C05.accept.fresh.flag] plain !== nil ==> ctrok(nil)
 //@   ensures [C02.accept.plain.flag] plain !== nil ==> (macok(nil) && old(c.msgState) == encrypted)
 //@   ensures [C02.accept.tosend.flag] toSend !== nil ==> (macok(nil) && old(c.msgState) == encrypted)
 
@@ -1167,7 +1175,7 @@ package otr3
 //@ func (*Conversation).receiveEncoded
 //@   requires convOK(c)
 //@   modifies anything
-//@   modifies macok(nil), mackey(nil), commitok(nil), akemacok(nil), sigok(nil), seclog(c), msglog(c), smplog(c), kmcWiped(addr(c.keys)), keysWiped(addr(c.keys)), akeWiped(c.ake), akeKeysWiped(c.ake), kmcWiped(addr(c.ake.keys)), keysWiped(addr(c.ake.keys))
+//@   modifies macok(nil), mackey(nil), ctrok(nil), commitok(nil), akemacok(nil), sigok(nil), seclog(c), msglog(c), smplog(c), kmcWiped(addr(c.keys)), keysWiped(addr(c.keys)), akeWiped(c.ake), akeKeysWiped(c.ake), kmcWiped(addr(c.ake.keys)), keysWiped(addr(c.ake.keys))
 //@   opaque
 //@ func (*Conversation).toSendEncoded
 //@   requires c != nil && (err == nil && len(toSend) > 0 ==> c.version != nil)
@@ -1177,7 +1185,7 @@ package otr3
 //@ func (*Conversation).receiveUnit
 //@   requires convOK(c) && len(c.injections.messages) == 0
 //@   modifies anything
-//@   modifies macok(nil), mackey(nil), commitok(nil), akemacok(nil), sigok(nil), seclog(c), msglog(c), smplog(c), kmcWiped(addr(c.keys)), keysWiped(addr(c.keys)), akeWiped(c.ake), akeKeysWiped(c.ake), kmcWiped(addr(c.ake.keys)), keysWiped(addr(c.ake.keys))
+//@   modifies macok(nil), mackey(nil), ctrok(nil), commitok(nil), akemacok(nil), sigok(nil), seclog(c), msglog(c), smplog(c), kmcWiped(addr(c.keys)), keysWiped(addr(c.keys)), akeWiped(c.ake), akeKeysWiped(c.ake), kmcWiped(addr(c.ake.keys)), keysWiped(addr(c.ake.keys))
 //@   ensures [C19.injections.flushed] len(c.injections.messages) == 0
 //@   ensures [C16.disabled.recv.a] (!hasPol(c, allowV2) && !hasPol(c, allowV3)) ==> (err == nil && len(toSend) == 0)
 //@   ensures [C16.disabled.recv.b] (!hasPol(c, allowV2) && !hasPol(c, allowV3)) ==> len(plain) == len(m)
@@ -1196,3 +1204,7 @@ package otr3
 //@   preserves [C07.start.frame] c.msgState, c.theirKey, c.version, c.ourCurrentKey, c.sentRevealSig, c.keys.ourKeyID, c.keys.theirKeyID, c.Policies
 //@   ensures [C07.start.commit] err == nil ==> (c.ake != nil && isAwDHKey(c.ake.state) && len(toSend) >= 3)
 //@   ensures [C08.restart.wipe] old(c.ake) != nil ==> (akeWiped(old(c.ake)) == old(akeWiped(c.ake)) + 1 && akeKeysWiped(old(c.ake)) == old(akeKeysWiped(c.ake)) + 1)
+
+//@ loop (*Conversation).processTLVs #0
+//@   invariant c != nil && nonglobal(retTLVs) && macok(nil) && ctrok(nil)
+//@   exit [C18.tlv.all,C02.tlv.all] rangeindex + 1 >= len(tlvs)
